@@ -333,6 +333,20 @@ def _task_e(args):
                                      "detail": detail, "case": {"part": "e", "format": fmt, "LA": LA, "j": j, "LB": LB}})
                 if sample is None and not v:
                     sample = {"part": "e", "format": fmt, "truncated_message": LA, "frames_kept": j, "next_message": LB}
+    # a decoder that was handed a pre-assembled message of the same PGN before (a log replayed through the Actisense
+    # entry point), then frames: the frames are reassembled as on a fresh decoder
+    for LB in bl:
+        enc, dec = NMEA2000Encoder(), NMEA2000Decoder()
+        try:
+            dec.decode_actisense_string(wire.actisense_line(3, 255, 5, 130816, pattern("asc", 9)))
+        except Exception:  # noqa: BLE001
+            pass
+        v, _ = check_message(enc, dec, fmt, 130816, pattern("asc", LB), None, f"{fmt} after a pre-assembled message of the same PGN, next message L={LB}")
+        n += 1
+        for kind, facts, detail in v:
+            if len(vios) < 40:
+                vios.append({"kind": kind, "facts": dict(facts, format=fmt, part="e", mechanism="after_preassembled_message"), "signature": f"e2:{kind}:{fmt}",
+                             "detail": detail, "case": {"part": "e", "format": fmt, "LA": las[0], "j": 0, "LB": LB, "pre": True}})
     return n, vios, sample, 0
 
 
@@ -430,6 +444,6 @@ def replay(ctx, rep):
         return v
     if c["part"] == "e":
         n, v, s, q = _task_e((c["format"], [c["LA"]]))
-        return [x for x in v if x["case"]["j"] == c["j"] and x["case"]["LB"] == c["LB"]][:1] or v[:1]
+        return [x for x in v if x["case"]["j"] == c["j"] and x["case"]["LB"] == c["LB"] and x["case"].get("pre") == c.get("pre")][:1] or v[:1]
     n, v, s, q = _task_c(([refdb.db().by_id[(c["pgn"], c["definition"])].idx],))
     return v
